@@ -98,13 +98,18 @@ def main():
             results = list(ex.map(one, todo))
         out = VERIF / "selfval" / "seeded.json"
     else:
+        import concurrent.futures as cf
+
         prop = a.prop.upper()
-        for patch in sorted((VERIF / "vf" / "mutants" / prop).glob("*.patch")):
-            if a.only and a.only not in patch.name:
-                continue
+        patches = [p_ for p_ in sorted((VERIF / "vf" / "mutants" / prop).glob("*.patch")) if not (a.only and a.only not in p_.name)]
+
+        def one_patch(patch):
             res = run_one(prop, patch, a.tier)
-            print(json.dumps(res))
-            results.append(res)
+            print(json.dumps(res), flush=True)
+            return res
+
+        with cf.ThreadPoolExecutor(max_workers=int(os.environ.get("SELFVAL_JOBS", "1"))) as ex:
+            results = list(ex.map(one_patch, patches))
         out = VERIF / "selfval" / f"{prop}.json"
     out.parent.mkdir(exist_ok=True)
     if not a.only:
